@@ -50,6 +50,8 @@ def apply_mut(tokens, mut):
     """mut: tuple of (pos, op), positions strictly increasing"""
     out = list(tokens)
     for pos, op in mut:
+        if pos < 0:
+            continue        # a flag, not a token mutation: (-1, 'eof') = the origin closes right after sending the stream
         t = tokens[pos]
         if op == 'del':
             out[pos] = b''
@@ -280,8 +282,21 @@ def enumerate_cases(seeds, tier):
                     continue
                 seen.add(h)
                 yield (si, m)
+        if s['dir'] == 'resp' and not s['close'] and s['method'] != 'CONNECT':
+            # the same response mutants followed by a premature close of the origin connection
+            yield (si, ((-1, 'eof'),))
+            seen = {hashlib.sha1(s['stream']).digest()}
+            for p in positions:
+                for op in OPS1:
+                    m = ((p, op),)
+                    h = hashlib.sha1(apply_mut(toks, m)).digest()
+                    if h in seen:
+                        continue
+                    seen.add(h)
+                    yield (si, m + ((-1, 'eof'),))
         if tier == 'thorough':
             fp2 = pair_positions(toks, fp)
+            seen = {hashlib.sha1(apply_mut(toks, ((p, op),))).digest() for p in positions for op in OPS1} | {hashlib.sha1(s['stream']).digest()}
             for a in range(len(fp2)):
                 for b in range(a + 1, len(fp2)):
                     for o1 in OPS2:
@@ -584,7 +599,7 @@ class HWorld:
             c.close()
 
     # ---- one case
-    def run_stream(self, seed, stream):
+    def run_stream(self, seed, stream, eof=False):
         """Play one (possibly mutated) stream.  Returns (outcome class, transcript).  Raises SquidDied / Hang / Failed."""
         if seed.get('accel'):
             sk = socket.socket(socket.AF_INET, socket.SOCK_STREAM)
@@ -598,7 +613,7 @@ class HWorld:
                 self.script = None
                 tosend = stream
             else:
-                self.script = {'stream': stream, 'close': seed['close'], 'on_accept': seed['method'] == 'CONNECT'}
+                self.script = {'stream': stream, 'close': seed['close'] or eof, 'on_accept': seed['method'] == 'CONNECT'}
                 tosend = seed['req']
             sent = 0
             waited = 0
@@ -714,14 +729,14 @@ def run_shard(ctx, shard, nshards, tier, t_end, replay_cases=None):
         si, mut, n = case
         seed = seed_for(si, n)
         stream = apply_mut(tokenize(seed['stream']), mut)
-        return w.run_stream(seed, stream)
+        return w.run_stream(seed, stream, eof=(-1, 'eof') in mut)
 
     def describe(case):
         si, mut, n = case
         seed = seed_for(si, n)
         toks = tokenize(seed['stream'])
         stream = apply_mut(toks, mut)
-        return {'seed': seed['name'], 'mutation': [{'token_index': p, 'token': repr(toks[p])[:60], 'op': o} for p, o in mut],
+        return {'seed': seed['name'], 'mutation': [{'token_index': p, 'token': repr(toks[p])[:60] if p >= 0 else 'origin closes after the stream', 'op': o} for p, o in mut],
                 'stream': repr(stream[:300]) + ('...(%d bytes)' % len(stream) if len(stream) > 300 else '')}
 
     def attempt(case):
@@ -750,7 +765,7 @@ def run_shard(ctx, shard, nshards, tier, t_end, replay_cases=None):
             key += ':' + seed['name'] + ':' + '+'.join(o for _, o in mut)
         d = describe(case)
         what = 'Squid failed on %s mutant %s of seed %s (%s): %s' % ('request' if seed['dir'] == 'req' else 'response', mut_name(mut), seed['name'], d['stream'][:400], ' | '.join(p2)[:1800])
-        dkey = hashlib.sha1(canon[si]['name'].encode() + b'\0' + apply_mut(canon_toks[si], mut)).digest()[:10]
+        dkey = hashlib.sha1(canon[si]['name'].encode() + (b'\1' if (-1, 'eof') in mut else b'\0') + apply_mut(canon_toks[si], mut)).digest()[:10]
         res['evaluations'] += 1
         res['distinct_keys'].add(dkey)
         res['nontrivial_keys'].add(dkey)        # a stream that makes Squid fail was certainly processed
@@ -798,11 +813,11 @@ def run_shard(ctx, shard, nshards, tier, t_end, replay_cases=None):
             res['evaluations'] += 1
             res['req_cases' if seeds0[si]['dir'] == 'req' else 'resp_cases'] += 1
             res['outcomes'][cls] = res['outcomes'].get(cls, 0) + 1
-            dkey = hashlib.sha1(canon[si]['name'].encode() + b'\0' + apply_mut(canon_toks[si], mut)).digest()[:10]
+            dkey = hashlib.sha1(canon[si]['name'].encode() + (b'\1' if (-1, 'eof') in mut else b'\0') + apply_mut(canon_toks[si], mut)).digest()[:10]
             res['distinct_keys'].add(dkey)
             if ':status-' in cls:
                 res['nontrivial_keys'].add(dkey)
-            if not mut:
+            if mut == ():
                 res['seed_outcomes'][seeds0[si]['name']] = cls
             elif cls not in res['samples']:
                 d = describe(case)
